@@ -66,8 +66,12 @@ def main():
         raise E.MachineryError('cannot measure bucket map: ' + PC.failure_text(r))
     bucket = r['ok']
     if any(b is None for b in bucket.values()):
-        raise E.MachineryError(f'bucket map not measurable: {bucket}')
-    V.notes['bucket_map_p3'] = bucket
+        # the registers of a fresh sketch are not observable one value at a time (e.g. shared between instances): the model then
+        # runs with an arbitrary bucket map - its register states are drift only, the clauses of the property do not depend on it
+        V.notes['bucket_map_p3'] = f'not measurable ({bucket}); arbitrary map used for the model'
+        bucket = {v: i % (1 << p) for i, v in enumerate(vals)}
+    else:
+        V.notes['bucket_map_p3'] = bucket
     # deviation controls
     for dev, inv in (('dup', 'ExactWhileWarm'), ('drop', 'ConversionLosesNothing')):
         Vt = E.Verdict(PID, tier, seed)
@@ -85,9 +89,12 @@ def main():
     got = PC.pipe_eval(jobs, modules=['sketch_ops'])
     nontriv = 0
     drift = 0
+    scaled_errors = []
     for ji, (job, r) in enumerate(zip(jobs, got)):
         if r is None or 'ok' not in r:
-            V.violation(f'raises:chunk{ji}', f'HyperLogLogWCache failed: {PC.failure_text(r)}', {'first_history': job['histories'][0]})
+            # the replay drives the class scaled down through its instance attributes (p, m, width, warm-up size): an exception
+            # here may only mean that this scaling no longer applies - judged at the end against the full-scale runs
+            scaled_errors.append(f'chunk{ji}: {PC.failure_text(r)[:200]}')
             continue
         for cs, ob in zip(cases[ji * chunk:(ji + 1) * chunk], r['ok']):
             distinct = len(set(cs['hist']))
@@ -108,10 +115,10 @@ def main():
     # ---- full scale
     lim = (1 << 18) + 3000
     plans = [('increasing', lim, 'hex'), ('dup-at-boundary', lim, 'str'), ('dup-heavy', lim, 'hex'), ('shuffled', lim, 'str'), ('exactly-cap-then-dups', 1 << 18, 'hex'), ('readd-trigger', (1 << 18) + 60, 'str'),
-             ('increasing', 1 << 20, 'hex'), ('shuffled', lim + 40000, 'mixed')]
+             ('increasing', 1 << 20, 'hex'), ('shuffled', lim + 40000, 'mixed'), ('increasing', lim, 'str+companion')]
     if tier != 'quick':
         plans += [('increasing', 1 << 21, 'hex'), ('increasing', 1 << 21, 'str'), ('dup-heavy', 1 << 20, 'str'), ('shuffled', (1 << 18) + 2000, 'hex')]
-    jobs = [{'op': 'hll_fullscale', 'pattern': pt, 'limit': lm, 'values': vk, 'seed': seed * 100 + i} for i, (pt, lm, vk) in enumerate(plans)]
+    jobs = [{'op': 'hll_fullscale', 'pattern': pt, 'limit': lm, 'values': vk.split('+')[0], 'companion': vk.endswith('+companion'), 'seed': seed * 100 + i} for i, (pt, lm, vk) in enumerate(plans)]
     got = PC.pipe_eval(jobs, modules=['sketch_ops'], procs=len(jobs))
     wd = E.workdir('c14t')
     try:
@@ -146,6 +153,10 @@ def main():
             raise E.MachineryError('negative control: size change on a duplicate accepted')
     finally:
         E.cleanup(wd)
+    if scaled_errors:
+        V.notes['scaled_replay_errors'] = scaled_errors[:5]
+        if not V.violations:
+            raise E.MachineryError('the scaled-down instance of the sketch raises although the full-scale runs are fine - the binding of HLL.tla (instance attributes p, m, width, warmup_size) must be updated: ' + scaled_errors[0])
     V.coverage['exhaustive'] = True
     return V.finish()
 
